@@ -64,16 +64,32 @@ def fan_transcript(ch, r):
     log = FanLog()
     client = ch.bool()
     default_ctor = client and ch.bool()
+    small_memory = ch.chance(64)
     if default_ctor:
         ep = Endpoint(True, conn=h2.connection.H2Connection())
         r.labels.add('fan:default-constructed-client')
+    elif small_memory:
+        # the documented class constant lowered, so that the closed-stream memory overflows with a dozen streams
+        cls = type('SmallMemoryConnection', (h2.connection.H2Connection,), {'MAX_CLOSED_STREAMS': ch.pick([1, 2, 3])})
+        ep = Endpoint(client, conn=cls(h2.config.H2Configuration(client_side=client)))
+        r.labels.add('fan:small-closed-stream-memory')
     else:
         ep = Endpoint(client, header_encoding=ch.pick([None, None, 'utf-8', 'latin-1']))
+    if ch.chance(80):
+        # settings installed before the connection starts (the way some servers configure it)
+        ep.c.local_settings = h2.settings.Settings(
+            client=client, initial_values={3: ch.pick([10, 77, 100]), 6: ch.pick([65536, 30000, 8192 * 3])})
+        r.labels.add('fan:local-settings-replaced')
     enc = Encoder()
     cookies = [(b'cookie', ch.pick([b'a=1', b'b=2', b'c=3', b'dd=44', b'e=5'])) for _ in range(ch.int(0, 6))]
     if ch.chance(64):
         # a field whose name decodes differently (or not at all) under different header_encoding settings
         cookies.append((ch.pick([b'x-caf\xe9', b'x-caf\xc3\xa9']), b'v'))
+    if ch.chance(48):
+        # several Host fields, one of which agrees with :authority
+        hosts = [b'example.com', b'other.example', b'third.example']
+        cookies = cookies + [(b'host', ch.pick(hosts)) for _ in range(ch.int(2, 3))]
+        r.labels.add('fan:several-host-fields')
     req = [(b':method', b'POST'), (b':scheme', b'https'), (b':authority', b'example.com'), (b':path', b'/')] + cookies
     resp = [(b':status', b'200')] + cookies
     log.note('call', 'initiate_connection', None, ep.call('initiate_connection'))
@@ -131,6 +147,10 @@ def fan_transcript(ch, r):
         log.note('recv', 'data', sid, ep.recv(wire.data(sid, b'12345', end_stream=True)))
         r.labels.add('fan:two-content-length-fields')
     _ = ep.c.open_inbound_streams, ep.c.open_outbound_streams
+    if small_memory:
+        # late frames on every stream: which of them are still remembered must not depend on anything but the calls
+        for sid in sids:
+            log.note('recv', 'late-headers', sid, ep.recv(wire.headers(sid, enc.encode([(b'x-late', b'1')]), end_stream=True)))
     log.note('call', 'close_connection', None, ep.call('close_connection'))
     r.labels.add('fan')
     if len(cookies) >= 3:
@@ -190,19 +210,33 @@ def child():
         sys.stdout.flush()
 
 
+def _respawn_noise_child():
+    """A fresh interpreter for the child with the different history: what it does first is then something else
+    again (state that the first connection of a process leaves behind shows only this way)."""
+    old = _children[1]
+    try:
+        old.stdin.close()
+        old.wait(timeout=10)
+    except Exception:   # noqa: BLE001
+        old.kill()
+    _children[1] = _start_child(1, CHILD_SEEDS[1])
+
+
+def _start_child(i, hs):
+    env = dict(os.environ, PYTHONHASHSEED=hs, H2VERIF_CLOCK_SHIFT=str((i + 1) * 1.0e8),
+               PYTHONDONTWRITEBYTECODE='1')
+    if i == 1:
+        env['H2VERIF_NOISE'] = '1'
+    env['PYTHONPATH'] = os.pathsep.join([os.environ.get('H2VERIF_SRC', '/repo/src'), ROOT,
+                                         os.path.join(ROOT, '.deps')])
+    return subprocess.Popen(
+        [sys.executable, '-c', 'from h2verif.props.C28 import child; child()'],
+        stdin=subprocess.PIPE, stdout=subprocess.PIPE, env=env, cwd=ROOT, text=True)
+
+
 def _spawn():
     global _children
-    _children = []
-    for i, hs in enumerate(CHILD_SEEDS):
-        env = dict(os.environ, PYTHONHASHSEED=hs, H2VERIF_CLOCK_SHIFT=str((i + 1) * 1.0e8),
-                   PYTHONDONTWRITEBYTECODE='1')
-        if i == 1:
-            env['H2VERIF_NOISE'] = '1'
-        env['PYTHONPATH'] = os.pathsep.join([os.environ.get('H2VERIF_SRC', '/repo/src'), ROOT,
-                                             os.path.join(ROOT, '.deps')])
-        _children.append(subprocess.Popen(
-            [sys.executable, '-c', 'from h2verif.props.C28 import child; child()'],
-            stdin=subprocess.PIPE, stdout=subprocess.PIPE, env=env, cwd=ROOT, text=True))
+    _children = [_start_child(i, hs) for i, hs in enumerate(CHILD_SEEDS)]
 
 
 def _ask(i, data):
@@ -222,9 +256,15 @@ def describe(p, i):
     return '%s:%s' % (st[0], st[2] if st[0] == 'call' else 'bytes')
 
 
+_ncases = [0]
+
+
 def run_case(data):
     if _children is None:
         _spawn()
+    _ncases[0] += 1
+    if _ncases[0] % 8 == 0:
+        _respawn_noise_child()
     a, p, r0 = transcript(data)
     r = Result()
     r.trace = r0.trace
